@@ -4,8 +4,9 @@
 set -e
 REPO=${1:-/repo}
 OUT=${2:-/verif/.work/verifharness}
-WORK=$(dirname "$OUT")
-mkdir -p "$WORK"
+mkdir -p "$(dirname "$OUT")"
+WORK=$(cd "$(dirname "$OUT")" && pwd)
+OUT="$WORK/$(basename "$OUT")"
 export GOFLAGS=-mod=mod GOPROXY=off
 python3 - "$REPO" "$WORK" <<'PY'
 import json,os,sys,glob
